@@ -353,17 +353,55 @@ theorem foldlM_buildRel_rels (d : DMRS) (sc idToIv ns scs) :
       rw [this, buildRel_rels d sc idToIv ns scs st st1 n h1]
       simp
 
-theorem fromDmrs_rels_aux (chosen : List Var) (d : DMRS) (m2 : MRS) (h : fromDmrs chosen d = .ok m2) :
-    m2.rels.map epFace = d.nodes.map nodeFace ∧ m2.icons = [] := by
+/-- inversion of a successful `fromDmrs`. -/
+theorem fromDmrs_inv (chosen : List Var) (d : DMRS) (m2 : MRS) (h : fromDmrs chosen d = .ok m2) :
+    ∃ tsc ns scs qmap index st,
+      scopesCh chosen d = .ok tsc ∧ nsArgsD d = .ok ns ∧ scArgsD d tsc.2 = .ok scs ∧
+      qmapD d = .ok qmap ∧
+      indexOf d (buildIvs d qmap (vfReserve (topNew d).2 tsc.2)).1 = .ok index ∧
+      d.nodes.foldlM
+        (buildRel d tsc.2 (buildIvs d qmap (vfReserve (topNew d).2 tsc.2)).1 ns scs)
+        { vf := (buildIvs d qmap (vfReserve (topNew d).2 tsc.2)).2,
+          hcons := hcTop (topNew d).1 tsc.1, rels := [] } = .ok st ∧
+      m2 = { top := (topNew d).1, index := index, rels := st.rels, hcons := st.hcons, icons := [],
+             variables := fillVars st.vf.store (topNew d).1 index st.rels st.hcons } := by
   unfold fromDmrs at h
-  simp only at h
-  repeat' split at h
-  all_goals first
-    | (cases h; done)
-    | (simp only [Except.ok.injEq] at h
-       subst h
-       have := foldlM_buildRel_rels _ _ _ _ _ _ _ _ (by assumption)
-       simpa using this)
+  cases h1 : scopesCh chosen d with
+  | error e => rw [h1] at h; cases h
+  | ok tsc =>
+    rw [h1] at h; simp only at h
+    cases h2 : nsArgsD d with
+    | error e => rw [h2] at h; cases h
+    | ok ns =>
+      rw [h2] at h; simp only at h
+      cases h3 : scArgsD d tsc.2 with
+      | error e => rw [h3] at h; cases h
+      | ok scs =>
+        rw [h3] at h; simp only at h
+        cases h4 : qmapD d with
+        | error e => rw [h4] at h; cases h
+        | ok qmap =>
+          rw [h4] at h; simp only at h
+          cases h5 : indexOf d (buildIvs d qmap (vfReserve (topNew d).2 tsc.2)).1 with
+          | error e => rw [h5] at h; cases h
+          | ok index =>
+            rw [h5] at h; simp only at h
+            cases h6 : d.nodes.foldlM
+                (buildRel d tsc.2 (buildIvs d qmap (vfReserve (topNew d).2 tsc.2)).1 ns scs)
+                { vf := (buildIvs d qmap (vfReserve (topNew d).2 tsc.2)).2,
+                  hcons := hcTop (topNew d).1 tsc.1, rels := [] } with
+            | error e => rw [h6] at h; cases h
+            | ok st =>
+              rw [h6] at h
+              simp only [Except.ok.injEq] at h
+              refine ⟨tsc, ns, scs, qmap, index, st, ?_, ?_, ?_, ?_, ?_, ?_, h.symm⟩ <;> first | rfl | assumption
+
+theorem fromDmrs_rels_aux (chosen : List Var) (d : DMRS) (m2 : MRS)
+    (h : fromDmrs chosen d = .ok m2) :
+    m2.rels.map epFace = d.nodes.map nodeFace ∧ m2.icons = [] := by
+  obtain ⟨tsc, ns, scs, qmap, index, st, _, _, _, _, _, hf, rfl⟩ := fromDmrs_inv chosen d m2 h
+  have := foldlM_buildRel_rels _ _ _ _ _ _ _ _ hf
+  exact ⟨by simpa using this, rfl⟩
 
 theorem nodes_faces (m : MRS) (d : DMRS) 
     (hlen : d.nodes.length = m.rels.length)
